@@ -23,6 +23,9 @@ fn main() {
     if std::env::var("VERIF_DEBUG").is_err() {
         std::panic::set_hook(Box::new(|_| {}));
     }
+    if std::env::var("VERIF_LOG").is_ok() {
+        let _ = tracing_subscriber::fmt().with_env_filter(tracing_subscriber::EnvFilter::new(std::env::var("VERIF_LOG").unwrap())).with_writer(std::io::stderr).try_init();
+    }
     match args[0].as_str() {
         "hnd" => hnd::main(&args[1..]),
         "kb" => kb::main(&args[1..]),
